@@ -53,8 +53,11 @@ func StartTLS(cfg *tls.Config) StreamFeature {
 			d := xml.NewTokenDecoder(r)
 
 			// If no TLSConfig was specified, use a default config.
-			if cfg == nil {
-				cfg = &tls.Config{
+			// The feature may be reused for other sessions so do not store the
+			// default (which is specific to this session) in cfg.
+			tlsCfg := cfg
+			if tlsCfg == nil {
+				tlsCfg = &tls.Config{
 					ServerName: session.LocalAddr().Domain().String(),
 					MinVersion: tls.VersionTLS12,
 				}
@@ -63,7 +66,7 @@ func StartTLS(cfg *tls.Config) StreamFeature {
 			var rw io.ReadWriter
 			if (state & Received) == Received {
 				fmt.Fprint(conn, `<proceed xmlns='urn:ietf:params:xml:ns:xmpp-tls'/>`)
-				rw = tls.Server(conn, cfg)
+				rw = tls.Server(conn, tlsCfg)
 			} else {
 				// Select starttls for negotiation.
 				fmt.Fprint(conn, `<starttls xmlns='urn:ietf:params:xml:ns:xmpp-tls'/>`)
@@ -83,7 +86,7 @@ func StartTLS(cfg *tls.Config) StreamFeature {
 						if err = d.Skip(); err != nil {
 							return 0, nil, err
 						}
-						rw = tls.Client(conn, cfg)
+						rw = tls.Client(conn, tlsCfg)
 					case tok.Name.Local == "failure":
 						// Skip the </failure> token.
 						if err = d.Skip(); err != nil {
